@@ -35,7 +35,7 @@ RULE = ("K-rt: for each collection filter, every list of length <= L over 3 keys
         "async generator), a sample through templates. distinct = (filter, arguments, input); non-trivial = the "
         "input has >= 2 items and (for keyed filters) >= 2 items share a key.")
 
-ASYNC_VARIANTS = {"slice", "unique", "join", "groupby", "sum", "first", "list", "map", "select", "reject",
+ASYNC_VARIANTS = {"slice", "unique", "join", "groupby", "sum", "first", "list", "map", "select", "reject", "reverse",
                   "selectattr", "rejectattr"}
 NEEDS_SEQUENCE = {"last", "length", "dictsort"}           # no generator input
 KEYS = ["a", "A", "b"]
@@ -323,9 +323,9 @@ def grid(sh, light):
                 if shape in ("plain", "dict", "nested") or not light:
                     out.append((mk(f, (), kw, f"{f} {b(cs)} {enc_attr(attr)}", {"cs": cs, "attr": attr}), sh[shape]))
         for rev in (False, True):
-            for shape, attr in (("plain", None), ("dict", "k"), ("dict2", "k,j"), ("dict2", "j,k"), ("pair", "0"),
+            for shape, attr in (("plain", None), ("dict", "k"), ("dict2", "k,j"), ("dict2", "j,k"), ("pair", "0"), ("pair", 0),
                                 ("nested", "p.q"), ("ints", None), ("missing", "k")):
-                if light and shape in ("pair", "ints", "missing"):
+                if light and shape in ("ints", "missing") or (light and shape == "pair" and attr == "0"):
                     continue
                 kw = {"reverse": rev, "case_sensitive": cs}
                 if attr is not None:
@@ -802,6 +802,54 @@ def matrix(ctx, jinja2):
                         A("select", ("odd",), ())
                         A("reject", ("greaterthan", 0), ())
                         A("join", ("-",), ("d",))
+        # FALSY BUT VALID argument values (0, "", False, 0.0, [], the integer attribute 0 / "0"): `x is None` is the only
+        # "not given"; judged against the Python definitions
+        def low(v):
+            return v.lower() if isinstance(v, str) else v
+        pairs = [("b", 2), ("A", 1), ("a", 0), ("B", 0), ("a", 3)]
+        for attr in (0, "0", 1, "1"):
+            ai = int(attr)
+            for rev in (False, True):
+                mx.apply("C22", "sort", list(pairs), (rev, False, attr), ("reverse", "case_sensitive", "attribute"),
+                         expect=lambda ai=ai, rev=rev: sorted(pairs, key=lambda p: low(p[ai]), reverse=rev))
+            mx.apply("C22", "unique", list(pairs), (False, attr), ("case_sensitive", "attribute"),
+                     expect=lambda ai=ai: [p for i, p in enumerate(pairs) if low(p[ai]) not in [low(q[ai]) for q in pairs[:i]]])
+            mx.apply("C22", "min", list(pairs), (False, attr), ("case_sensitive", "attribute"), expect=lambda ai=ai: min(pairs, key=lambda p: low(p[ai])))
+            mx.apply("C22", "max", list(pairs), (True, attr), ("case_sensitive", "attribute"), expect=lambda ai=ai: max(pairs, key=lambda p: p[ai]))
+            mx.apply("C22", "map", list(pairs), {"attribute": attr}, (), expect=lambda ai=ai: [p[ai] for p in pairs])
+            mx.apply("C22", "join", list(pairs), ("", attr), ("d", "attribute"), expect=lambda ai=ai: "".join(str(p[ai]) for p in pairs))
+            mx.apply("C22", "sum", [(1, 5), (2, 7)], (attr, 0.0), ("attribute", "start"), expect=lambda ai=ai: 0.0 + sum(p[ai] for p in [(1, 5), (2, 7)]))
+            mx.apply("C22", "selectattr", list(pairs), (attr, "equalto", pairs[2][ai]), (), expect=lambda ai=ai: [p for p in pairs if p[ai] == pairs[2][ai]])
+            mx.apply("C22", "groupby", list(pairs), (attr,), ("attribute",))
+        seq = [1, 2, 3, 4, 5]
+        for fill in (0, "", False, 0.0, [], ()):
+            mx.apply("C22", "batch", list(seq), (2, fill), ("linecount", "fill_with"), expect=lambda fill=fill: [[1, 2], [3, 4], [5, fill]])
+            mx.apply("C22", "slice", list(seq), (2, fill), ("slices", "fill_with"), expect=lambda fill=fill: [[1, 2, 3], [4, 5, fill]])
+        rows = [{"k": "a"}, {}, {"k": ""}, {"k": 0}]
+        for dflt in (0, "", False, 0.0, []):
+            mx.apply("C22", "map", list(rows), {"attribute": "k", "default": dflt}, (), expect=lambda dflt=dflt: ["a", dflt, "", 0])
+        for dflt in ("", "0"):
+            mx.apply("C22", "groupby", [{"k": "b"}, {}, {"k": ""}], ("k", dflt), ("attribute", "default"))
+        for start in (0, 0.0, False, -0.0):
+            mx.apply("C22", "sum", [1, 2], (None, start), ("attribute", "start"), expect=lambda start=start: sum([1, 2], start))
+        for d in ("", 0, False):
+            mx.apply("C22", "join", ["x", "y"], (d,), ("d",), expect=lambda d=d: str(d).join(["x", "y"]))
+        # a single CONTAINER value as the argument of a variadic filter (test / filter arguments)
+        mx.apply("C22", "select", [("a", "b"), ("c",), "a"], ("equalto", ("a", "b")), (), expect=lambda: [("a", "b")])
+        mx.apply("C22", "reject", ["a", "b", "c"], ("in", ("a", "b")), (), expect=lambda: ["c"])
+        mx.apply("C22", "select", ["a", "b", "c"], ("in", {"a": 1, "c": 2}), (), expect=lambda: ["a", "c"])
+        mx.apply("C22", "map", ["a", "b"], ("default", ()), ())
+        mx.apply("C22", "map", [[1, 2], [3]], ("join", ("-",)), ())
+        # dictsort with keys that are not str
+        import enum
+
+        class Color(enum.Enum):
+            RED = 1
+        for d in ({(1, 2): "x", (0, 5): "y"}, {b"b": 1, b"a": 2}, {2.5: "x", 1: "y", True: "z"}, {frozenset([1]): 1}, {Color.RED: 1}, {None: 1}):
+            for a in ((), (False, "value"), (True, "key", True)):
+                mx.apply("C22", "dictsort", dict(d), a, ("case_sensitive", "by", "reverse"),
+                         expect=(lambda d=d, a=a: sorted(d.items(), key=lambda kv: kv[1 if len(a) > 1 and a[1] == "value" else 0],
+                                                         reverse=bool(len(a) > 2 and a[2]))))
         # float items: the builtin sum of the sync filter adds floats with compensation (Python >= 3.12), so
         # sequences whose naive left-to-right sum differs must give the same result in every environment
         import math
@@ -814,6 +862,23 @@ def matrix(ctx, jinja2):
             mx.apply("C22", "sum", objs, ("v",), ("attribute",), expect=lambda xs=xs: sum(xs))
             for f in ("min", "max", "sort", "unique"):
                 mx.apply("C22", f, list(xs), (), ())
+        # attribute names made of digit-like characters: only decimal digits (what int() accepts) are integer
+        # parts; any other name (superscripts, circled numbers, fractions) is an ordinary key
+        for name in ("\u00b2", "\u2460", "n\u00bd", "\u00b2\u00b3", "x2", "\u0664"):
+            rows = [{name: k, "i": i} for i, k in enumerate(["b", "A", "a"])]
+            isint = name.isdecimal()
+            seqs = [["b", "A", "a", "c", "d"], ["x"] * 5] if isint else None
+            data = seqs if isint else rows
+            get = (lambda r, name=name: r[int(name)] if name.isdecimal() else r[name])
+            mx.apply("C22", "map", data, {"attribute": name}, (), expect=lambda data=data, get=get: [get(r) for r in data])
+            mx.apply("C22", "sort", data, (False, True, name), ("reverse", "case_sensitive", "attribute"),
+                     expect=lambda data=data, get=get: sorted(data, key=get))
+            mx.apply("C22", "unique", data, (True, name), ("case_sensitive", "attribute"))
+            mx.apply("C22", "groupby", data, (name,), ("attribute",))
+            mx.apply("C22", "join", data, ("|", name), ("d", "attribute"), expect=lambda data=data, get=get: "|".join(get(r) for r in data))
+            mx.apply("C22", "selectattr", data, (name, "equalto", "a"), (), expect=lambda data=data, get=get: [r for r in data if get(r) == "a"])
+            mx.apply("C22", "max", data, (True, name), ("case_sensitive", "attribute"), expect=lambda data=data, get=get: max(data, key=get))
+            mx.apply("C22", "map", [{"p": r} for r in data], {"attribute": "p." + name}, (), expect=lambda data=data, get=get: [get(r) for r in data])
         # items whose attribute protocol raises: every way must fail the same way
         bad = [Obj("a", 0), Raising()]
         for f, a, n in (("sort", (False, False, "k"), ("reverse", "case_sensitive", "attribute")), ("unique", (False, "k"), ("case_sensitive", "attribute")),
@@ -827,6 +892,7 @@ def matrix(ctx, jinja2):
                 for a in ((), (False, "key", False), (True, "value", True), (False, "value"), (False, "other")):
                     mx.apply("C22", "dictsort", make(dict(d)), a, ("case_sensitive", "by", "reverse"))
         mx.history_pass(every_fresh=7)
+        mx.alternation_pass(envnames=("sync", "async"))
     finally:
         mx.close()
 
